@@ -466,6 +466,24 @@ pub fn special_cases() -> Vec<(String, Vec<u8>)> {
         fb.finish_table(&[("Root", Val::r(1))], Split::Runs);
         v.push((name.to_string(), fb.bytes()));
     }
+    // the same chain, every /Parent reached through an object that is nothing but a reference to the node
+    for depth in [40usize, 20000] {
+        let mut fb = FileBuilder::new(b"");
+        fb.add(1, 0, &cat);
+        fb.add(2, 0, &Val::dict(vec![("Type", Val::name("Pages")), ("Kids", Val::Array(vec![Val::r(3)])), ("Count", Val::Int(1))]));
+        let first = 10u64;
+        // node k is object first+2k, the reference-only object in front of it is first+2k+1
+        let last_alias = first + 2 * (depth as u64 - 1) + 1;
+        fb.add(3, 0, &Val::dict(vec![("Type", Val::name("Page")), ("Parent", Val::r(last_alias)), ("MediaBox", Val::ints(&[0, 0, 10, 10]))]));
+        for k in 0..depth as u64 {
+            let node = first + 2 * k;
+            let parent = if k == 0 { Val::r(2) } else { Val::r(node - 1) };
+            fb.add(node, 0, &Val::dict(vec![("Type", Val::name("Pages")), ("Parent", parent), ("Kids", Val::Array(vec![])), ("Count", Val::Int(0))]));
+            fb.add(node + 1, 0, &Val::r(node));
+        }
+        fb.finish_table(&[("Root", Val::r(1))], Split::Runs);
+        v.push((format!("parent-chain-{}-through-reference-only-objects", depth), fb.bytes()));
+    }
     // page tree whose subtree counts add up beyond 32 bits
     {
         let mut fb = FileBuilder::new(b"");
